@@ -4,7 +4,9 @@ A case is a PAIR of values (v, w) (or a memoize call sequence).  Values are JSON
   atoms      ["i",z] ["b",0|1] ["f",q] (the float q/4) ["s",str] ["y",[byte,..]] ["n"] ["t",typename] ["m"] (np.ma.masked)
              ["o",cls,id,picklable]
   sequences  ["T",items] tuple  ["L",items] list  ["Q",maxlen|null,items] deque  ["B",items] bytearray
-             ["A",code,items] array.array  ["N",masked,dtype,shape,items] ndarray (flat C order)
+             ["A",code,items] array.array  ["N",masked,dtype,shape,items(,layout)] ndarray (items in logical C order;
+             layout "C" | "F" Fortran-ordered | "T" transposed view | "S" non-contiguous slice | "R" reversed view:
+             only the Python side honours it when building the real array - the Coq model never sees it)
   sets       ["S",items] set  ["F",items] frozenset            (items in insertion order)
   mappings   ["D",pairs] dict  ["O",pairs] OrderedDict  ["E",factory|null,pairs] defaultdict  ["C",pairs] Counter
   pandas     ["SR",name_atom,dtype,idx_atoms,val_atoms]  ["DF",[[col_atom,dtype,val_atoms],..],idx_atoms]
@@ -32,8 +34,11 @@ RULE = ("pairs (v, w) from a recursive generator over the supported types (depth
         "values with permuted set/dict insertion orders and ==-equal scalar substitutions (1/True/1.0), single-step "
         "near misses (container kind, maxlen, typecode, dtype, shape, order, element, key, value), a hand-written "
         "look-alike table, independent pairs, a malformed stream (mutually incomparable set elements / dict keys, "
-        "frozenset keys, masked arrays, pandas, forged marker tuples, unpicklable objects, fallback off) and memoize "
-        "call sequences; each key also computed in a second interpreter with another PYTHONHASHSEED; "
+        "frozenset keys, masked arrays, pandas, forged marker tuples, unpicklable objects, fallback off), memoize "
+        "call sequences, ndarray pairs with different MEMORY LAYOUTS (C / Fortran / transposed view / non-contiguous "
+        "slice / reversed view, rank >= 2 with unequal axis sizes: same content & other layout, other content & same "
+        "bytes in memory), and re-keying after an IN-PLACE modification of the same live object (ndarray, list, dict, "
+        "set, bytearray, deque, array, also nested); each key also computed in a second interpreter with another PYTHONHASHSEED; "
         "non-trivial = at least one side is a container; distinct by (fp, v, w)")
 ASSUMPTIONS = ["floats are small dyadic values q/4 (no NaN/inf: nan != nan, an array containing NaN never equals itself)",
                "arbitrary picklable objects are instances of classes with __eq__ by (class, id) and __hash__ = None; "
@@ -115,7 +120,7 @@ def build(t):
     if k == "N":
         import numpy as np
 
-        _, masked, dt, shape, items = t
+        _, masked, dt, shape, items = t[:5]
         n = len(items)
         mask = [x[0] == "m" for x in items]
         if dt == "|O":
@@ -127,7 +132,7 @@ def build(t):
         data = data.reshape(tuple(shape))
         if masked:
             return np.ma.masked_array(data, mask=np.array(mask, dtype=bool).reshape(tuple(shape)))
-        return data
+        return _with_layout(data, t[5] if len(t) > 5 else "C")
     if k == "S":
         out = set()
         for x in t[1]:
@@ -164,6 +169,32 @@ def build(t):
         return pd.DataFrame({build(c): pd.Series([build(x) for x in vals], index=index, dtype=np.dtype(dt))
                              for c, dt, vals in cols}, index=index)
     raise ValueError(k)
+
+
+def _with_layout(data, layout):
+    """The same logical array (shape, dtype, content) with another memory layout."""
+    import numpy as np
+
+    if layout == "C" or data.ndim == 0:
+        return data
+    if layout == "F":
+        out = np.asfortranarray(data)
+    elif layout == "T":  # a transposed view of a C-contiguous base
+        out = np.ascontiguousarray(data.T).T
+    elif layout == "S":  # every second element along the last axis of a larger base
+        big = np.empty(data.shape[:-1] + (2 * data.shape[-1] + 1,), dtype=data.dtype)
+        if data.dtype == object:
+            big[...] = None
+        else:
+            big[...] = 0
+        big[..., 1::2] = data
+        out = big[..., 1::2]
+    elif layout == "R":  # negative strides
+        out = np.ascontiguousarray(data[::-1])[::-1]
+    else:
+        raise ValueError(layout)
+    assert out.shape == data.shape and out.dtype == data.dtype
+    return out
 
 
 # ------------------------------------------------------------------ Coq literals
@@ -275,6 +306,8 @@ def emit_case(c) -> str:
         return f"(CPair {cbool(c['fp'])} {lit(c['v'])} {lit(c['w'])})"
     if c["kind"] == "pickle":
         return f"(CPickle {lit(c['v'])})"
+    if c["kind"] == "rekey":
+        return f"(CRekey {lit(c['v'])} {lit(c['w'])})"
     return f"(CMemo {clist([lit(a) for a in c['args']])})"
 
 
@@ -419,6 +452,19 @@ def run_impl(c):
         if sg not in _SECOND:
             _second_batch([(True, c["v"])])
         return Ok(_pk(k[0]) == _SECOND[sg][1])
+    if c["kind"] == "rekey":
+        from pipefunc.cache import to_hashable
+
+        try:
+            obj = build(json.loads(json.dumps(c["v"])))
+            k0 = to_hashable(obj)
+            target = _nav(obj, c["v"], c["path"])
+            _assign_inplace(target, json.loads(json.dumps(_get(c["w"], c["path"]))))
+            k1 = to_hashable(obj)                                   # the SAME object, new contents
+            kf = to_hashable(build(json.loads(json.dumps(c["w"]))))  # an independently built w
+            return [bool(k1 == kf), bool(k1 == k0)]
+        except TypeError:
+            return Err("TypeError")
     # memoize call sequence: the body reports which call executed it
     from pipefunc.cache import memoize
 
@@ -439,6 +485,190 @@ def run_impl(c):
         except Exception as e:  # noqa: BLE001
             out.append(Err(e))
     return out
+
+
+# ------------------------------------------------------------------ in-place mutation of a built value
+def _nav(obj, tree, path):
+    """The sub-object of the built value `obj` at `path` of its tree (paths as produced by _paths)."""
+    path = list(path)
+    while path:
+        k = tree[0]
+        if k in ("T", "L"):
+            _, j = path[:2]
+            obj, tree, path = obj[j], tree[1][j], path[2:]
+        elif k == "Q":
+            _, j = path[:2]
+            obj, tree, path = obj[j], tree[2][j], path[2:]
+        elif k == "N":
+            _, j = path[:2]
+            obj, tree, path = obj.flat[j], tree[4][j], path[2:]
+        elif k in ("D", "O", "C", "E"):
+            f, j, _one = path[:3]
+            obj, tree, path = list(obj.values())[j], tree[f][j][1], path[3:]
+        else:
+            raise ValueError(k)
+    return obj
+
+
+def _assign_inplace(obj, new):
+    """Turn the live object `obj` into the value `new` (same kind) WITHOUT creating a new object."""
+    import numpy as np
+
+    k = new[0]
+    if k == "L":
+        obj[:] = [build(x) for x in new[1]]
+    elif k == "Q":
+        obj.clear()
+        obj.extend(build(x) for x in new[2])
+    elif k == "B":
+        obj[:] = bytes(build(x) for x in new[1])
+    elif k == "A":
+        obj[:] = build(new)
+    elif k == "N":
+        np.copyto(obj, build(new))
+    elif k == "S":
+        obj.clear()
+        for x in new[1]:
+            obj.add(build(x))
+    elif k in ("D", "O", "C", "E"):
+        obj.clear()
+        for a, b in (new[2] if k == "E" else new[1]):
+            obj[build(a)] = build(b)
+    else:
+        raise ValueError(k)
+
+
+INPLACE_KINDS = ("L", "Q", "B", "A", "N", "S", "D", "O", "C", "E")
+
+
+def inplace_variant(rng, t):
+    """A value of the same kind (and dtype/shape/typecode/maxlen/factory) that `t` can be turned into in place;
+    None if not applicable.  With probability ~1/4 an EQUAL value (other insertion order / same content)."""
+    k = t[0]
+    t = json.loads(json.dumps(t))
+    if k not in INPLACE_KINDS or (k == "N" and t[1]):
+        return None
+    if rng.random() < 0.25:
+        return reorder(rng, t)
+    if k == "L":
+        op = rng.randrange(4)
+        if op == 0 and len(t[1]) >= 2:
+            i, j = rng.sample(range(len(t[1])), 2)
+            t[1][i], t[1][j] = t[1][j], t[1][i]
+        elif op == 1 and t[1]:
+            t[1].pop(rng.randrange(len(t[1])))
+        elif op == 2 and t[1]:
+            t[1][rng.randrange(len(t[1]))] = g_atom(rng)
+        else:
+            t[1].append(g_atom(rng))
+        return t
+    if k == "Q":
+        if t[2] and rng.random() < 0.6:
+            t[2][rng.randrange(len(t[2]))] = g_atom(rng)
+        elif t[1] is None or len(t[2]) < t[1]:
+            t[2].append(g_atom(rng))
+        elif t[2]:
+            t[2].pop()
+        return t
+    if k == "B":
+        if t[1] and rng.random() < 0.6:
+            t[1][rng.randrange(len(t[1]))] = ["i", rng.choice([0, 1, 97, 255])]
+        else:
+            t[1].append(["i", 7])
+        return t
+    if k == "A":
+        ints = t[1] in ARRAY_INT_CODES
+        new = ["i", rng.choice([0, 1, 2, 3, 7])] if ints else ["f", rng.choice(FLOATS)]
+        if t[2] and rng.random() < 0.6:
+            t[2][rng.randrange(len(t[2]))] = new
+        else:
+            t[2].append(new)
+        return t
+    if k == "N":
+        dt, items = t[2], t[4]
+        if not items:
+            return t
+        op = rng.randrange(3)
+        def new_elem():
+            if dt in INT_DTYPES:
+                return ["i", rng.choice([0, 1, 2, 3, 7, 9])]
+            if dt in FLOAT_DTYPES:
+                return ["f", rng.choice(FLOATS + [20])]
+            if dt == "|b1":
+                return ["b", rng.randrange(2)]
+            if dt.startswith("<U"):
+                return ["s", rng.choice(["", "a", "b"])]
+            return g_val(rng, 1, allow_nd=False)
+        if op == 0:  # x[j] = ...
+            items[rng.randrange(len(items))] = new_elem()
+        elif op == 1 and len(items) >= 2:  # swap two elements
+            i, j = rng.sample(range(len(items)), 2)
+            items[i], items[j] = items[j], items[i]
+        else:  # x[:] = ...
+            t[4] = [new_elem() for _ in items]
+        return t
+    if k == "S":
+        cls = _cls(t[1][0]) if t[1] else "num"
+        if t[1] and rng.random() < 0.5:
+            t[1].pop(rng.randrange(len(t[1])))
+            return t
+        cand = g_unique(rng, len(t[1]) + 1, lambda: g_atom(rng, cls if cls in ("num", "str", "bytes") else "num"))
+        keys = {build(x) for x in t[1]}
+        for x in cand:
+            if build(x) not in keys:
+                t[1].append(x)
+                return t
+        return None
+    pairs = t[2] if k == "E" else t[1]
+    op = rng.randrange(3)
+    if op == 0 and pairs:
+        pairs[rng.randrange(len(pairs))][1] = ["i", rng.choice([1, 2, 9])] if k == "C" else g_atom(rng)
+    elif op == 1 and pairs:
+        pairs.pop(rng.randrange(len(pairs)))
+    else:
+        cls = _cls(pairs[0][0]) if pairs else "num"
+        keys = {build(a) for a, _ in pairs}
+        for x in g_unique(rng, len(pairs) + 2, lambda: g_atom(rng, cls if cls in ("num", "str", "bytes") else "num")):
+            if build(x) not in keys:
+                pairs.append([x, ["i", 1] if k == "C" else g_atom(rng)])
+                break
+        else:
+            return None
+    return t
+
+
+def relayout(rng, t):
+    """The same value with other memory layouts of its (unmasked) ndarrays."""
+    k = t[0]
+    if k == "N":
+        t = json.loads(json.dumps(t))
+        if not t[1]:
+            lay = rng.choice(["C", "F", "T", "S", "R"])
+            t = t[:5] + [lay]
+            if t[2] == "|O":
+                t[4] = [relayout(rng, x) for x in t[4]]
+        return t
+    if k in ("T", "L", "S", "F"):
+        return [k, [relayout(rng, x) for x in t[1]]] if k in ("T", "L") else t
+    if k == "Q":
+        return ["Q", t[1], [relayout(rng, x) for x in t[2]]]
+    if k in ("D", "O", "C"):
+        return [k, [[a, relayout(rng, b)] for a, b in t[1]]]
+    if k == "E":
+        return ["E", t[1], [[a, relayout(rng, b)] for a, b in t[2]]]
+    return t
+
+
+def memory_twin(t, layout="T"):
+    """For a C-ordered ndarray t of rank >= 2: the array of the same shape and dtype whose MEMORY (under `layout`
+    "T" or "F") holds t's elements in t's order - its logical content differs unless t is symmetric."""
+    import numpy as np
+
+    _, masked, dt, shape, items = t[:5]
+    if masked or len(shape) < 2 or not items:
+        return None
+    idx = np.arange(len(items)).reshape(tuple(shape)[::-1]).transpose().reshape(-1)
+    return ["N", 0, dt, list(shape), [items[int(j)] for j in idx], layout]
 
 
 # ------------------------------------------------------------------ generators
@@ -647,7 +877,7 @@ def reorder(rng, t, subst=0.0):
     if k == "Q":
         return ["Q", t[1], [reorder(rng, x, subst) for x in t[2]]]
     if k == "N" and t[2] == "|O":
-        return ["N", t[1], t[2], list(t[3]), [reorder(rng, x, subst) for x in t[4]]]
+        return ["N", t[1], t[2], list(t[3]), [reorder(rng, x, subst) for x in t[4]]] + list(t[5:])
     if k in ("S", "F"):
         items = [reorder(rng, x, subst) for x in t[1]]
         rng.shuffle(items)
@@ -744,7 +974,7 @@ def mutate_node(rng, t):
         t[2].append(["i", 1] if ints else ["f", 4])
         return t
     if k == "N":
-        _, masked, dt, shape, items = t
+        _, masked, dt, shape, items = t[:5]
         op = rng.randrange(5)
         n = len(items)
         if op == 0:  # other dtype, same data
@@ -986,6 +1216,46 @@ PICKLE_WITNESSES = [
 ]
 
 
+def _nd(dt, shape, items, layout="C"):
+    return ["N", 0, dt, shape, items, layout]
+
+
+_A32 = _nd("<i8", [3, 2], _i(0, 1, 2, 3, 4, 5))
+_A23 = _nd("<i8", [2, 3], _i(0, 1, 2, 3, 4, 5))
+_A212 = _nd("<f8", [2, 1, 2], [["f", 0], ["f", 4], ["f", 8], ["f", 12]])
+_A22 = _nd("<i4", [2, 2], _i(1, 2, 3, 4))
+_AO = _nd("|O", [2, 2], [["L", _i(1)], ["i", 2], ["n"], ["s", "a"]])
+LAYOUT_BASES = [_A32, _A23, _A212, _A22, _AO, _nd("|b1", [2, 3], [["b", 1], ["b", 0], ["b", 0], ["b", 1], ["b", 1], ["b", 0]]),
+                _nd("<U1", [3, 2], [["s", x] for x in "abcdef"]), _nd("<i8", [4], _i(1, 2, 3, 4))]
+
+REKEYS = [  # (v, path, new sub-value): x = build(v); key; mutate the object at path in place; key again
+    (_nd("<f8", [3], [["f", 4], ["f", 8], ["f", 12]]), (), _nd("<f8", [3], [["f", 400], ["f", 8], ["f", 12]])),      # x[0] = 100.
+    (_nd("<f8", [3], [["f", 4], ["f", 8], ["f", 12]]), (), _nd("<f8", [3], [["f", 8], ["f", 16], ["f", 24]])),      # x *= 2
+    (_nd("<f8", [3], [["f", 4], ["f", 8], ["f", 12]]), (), _nd("<f8", [3], [["f", 4], ["f", 8], ["f", 12]])),       # x[:] = x
+    (_nd("<i8", [2, 2], _i(0, 0, 0, 0)), (), _nd("<i8", [2, 2], _i(1, 1, 1, 1))),                                    # y += 1
+    (_nd("<i8", [3, 2], _i(0, 1, 2, 3, 4, 5), "T"), (), _nd("<i8", [3, 2], _i(0, 1, 2, 3, 4, 9), "T")),
+    (_nd("<i8", [3, 2], _i(0, 1, 2, 3, 4, 5), "F"), (), _nd("<i8", [3, 2], _i(5, 4, 3, 2, 1, 0), "F")),
+    (_nd("|b1", [2], [["b", 1], ["b", 0]]), (), _nd("|b1", [2], [["b", 0], ["b", 0]])),
+    (_nd("<U1", [2], [["s", "a"], ["s", "b"]]), (), _nd("<U1", [2], [["s", "b"], ["s", "b"]])),
+    (["D", [[["s", "cfg"], ["L", [_nd("<i8", [2, 2], _i(0, 0, 0, 0)), ["s", "a"]]]]]], (1, 0, 1, 1, 0),
+     _nd("<i8", [2, 2], _i(1, 1, 1, 1))),                                                                           # {'cfg': [y, 'a']}; y += 1
+    (["L", [_nd("<f4", [2], [["f", 4], ["f", 4]])]], (1, 0), _nd("<f4", [2], [["f", 20], ["f", 20]])),               # d[:] = 5
+    (["T", [["i", 1], _nd("<i8", [2], _i(1, 2))]], (1, 1), _nd("<i8", [2], _i(2, 1))),
+    (_AO, (), _nd("|O", [2, 2], [["L", _i(1)], ["i", 3], ["n"], ["s", "a"]])),
+    (_AO, (4, 0), ["L", _i(1, 2)]),                                                                                  # list inside an object array
+    (["L", _i(1, 2, 3)], (), ["L", _i(1, 2)]), (["L", _i(1, 2, 3)], (), ["L", _i(3, 2, 1)]), (["L", _i(1, 2)], (), ["L", _i(1, 2)]),
+    (["L", [["L", _i(1)], ["i", 2]]], (1, 0), ["L", _i(1, 5)]),
+    (["D", [[["i", 1], ["s", "a"]], [["i", 2], ["s", "b"]]]], (), ["D", [[["i", 2], ["s", "b"]], [["i", 1], ["s", "a"]]]]),
+    (["D", [[["i", 1], ["s", "a"]], [["i", 2], ["s", "b"]]]], (), ["D", [[["i", 1], ["s", "a"]], [["i", 2], ["s", "c"]]]]),
+    (["O", [[["i", 1], ["s", "a"]], [["i", 2], ["s", "b"]]]], (), ["O", [[["i", 2], ["s", "b"]], [["i", 1], ["s", "a"]]]]),
+    (["E", "int", [[["s", "a"], ["i", 1]]]], (), ["E", "int", [[["s", "a"], ["i", 2]]]]),
+    (["C", [[["s", "a"], ["i", 1]]]], (), ["C", [[["s", "a"], ["i", 2]]]]),
+    (["S", _i(1, 2, 3)], (), ["S", _i(3, 2)]), (["S", _i(1, 2, 3)], (), ["S", _i(3, 1, 2)]),
+    (["B", _i(97, 98)], (), ["B", _i(97, 99)]), (["Q", 3, _i(1, 2)], (), ["Q", 3, _i(1, 2, 3)]),
+    (["Q", None, _i(1, 2)], (), ["Q", None, _i(2, 1)]), (["A", "i", _i(1, 2)], (), ["A", "i", _i(1, 3)]),
+]
+
+
 def _size(t):
     return 1 + sum(_size(x) for x in children(t)) + (
         sum(_size(a) + _size(b) for a, b in (t[2] if t[0] == "E" else t[1])) if t[0] in ("D", "O", "E", "C") else 0)
@@ -1045,6 +1315,68 @@ def generate(rng, tier, mult):
         w = near_miss(rng, v)
         if w is not None:
             pair(v, w, "bigsort-near")
+    # ---- memory layouts of ndarrays: to_hashable must depend on the logical content only
+    for a in LAYOUT_BASES:
+        for lay in ("F", "T", "S", "R"):
+            b = a[:5] + [lay]
+            pair(a, b, "layout-equal")
+            pair(b, a, "layout-equal")
+            pair(["L", [["D", [[["s", "w"], a]]]]], ["L", [["D", [[["s", "w"], b]]]]], "layout-equal")
+        for lay in ("T", "F"):
+            tw = memory_twin(a, lay)
+            if tw is not None:
+                pair(a, tw, "layout-twin")          # different content, the same bytes in memory
+                pair(tw, a, "layout-twin")
+                pair(["L", [["D", [[["s", "w"], a]]]]], ["L", [["D", [[["s", "w"], tw]]]]], "layout-twin")
+    for _ in range(max(20, n // 4)):
+        a = g_ndarray(rng)
+        while len(a[3]) < 2 or a[3][0] * a[3][-1] < 2:
+            a = g_ndarray(rng)
+        a = a + ["C"]
+        wrap_ = rng.choice([None, "L", "D", "T"])
+        def w_(x, wrap_=wrap_):
+            return x if wrap_ is None else ["D", [[["s", "k"], x]]] if wrap_ == "D" else [wrap_, [x, ["i", 1]]]
+        pair(w_(a), w_(relayout(rng, a)), "layout-equal")
+        pair(w_(relayout(rng, a)), w_(relayout(rng, a)), "layout-equal")
+        tw = memory_twin(a, rng.choice(["T", "F"]))
+        if tw is not None:
+            pair(w_(relayout(rng, a)), w_(tw), "layout-twin")
+        nm = near_miss(rng, a)
+        if nm is not None:
+            pair(relayout(rng, a), relayout(rng, nm), "layout-near")
+    # ---- re-keying after an in-place modification of the same object
+    def rekey(v, path, new):
+        cases.append({"kind": "rekey", "v": v, "w": _set(v, tuple(path), new), "path": list(path)})
+
+    for v, path, new in REKEYS:
+        rekey(v, path, new)
+    tries = 0
+    want = max(40, n // 2)
+    made = 0
+    while made < want and tries < 20 * want:
+        tries += 1
+        if rng.random() < 0.4:
+            v = g_ndarray(rng)
+            if rng.random() < 0.5:
+                v = rng.choice([["L", [v, ["s", "a"]]], ["D", [[["s", "k"], v]]], ["T", [["i", 0], v]], ["Q", None, [v]]])
+        else:
+            v = g_val(rng, rng.choice([1, 2, 2, 3]))
+        if _size(v) > 30:
+            continue
+        v = relayout(rng, v)
+        cand = [p for p in _paths(v) if _get(v, p)[0] in INPLACE_KINDS]
+        if not cand:
+            continue
+        path = rng.choice(cand)
+        new = inplace_variant(rng, _get(v, path))
+        if new is None:
+            continue
+        try:
+            build(_set(v, path, new))
+        except Exception:  # noqa: BLE001
+            continue
+        rekey(v, path, new)
+        made += 1
     # memoize call sequences with repeated / look-alike arguments
     for _ in range(max(6, n // 8)):
         base = g_val(rng, rng.choice([1, 2]))
@@ -1095,6 +1427,8 @@ def _kinds(t, acc):
 
 
 def nontrivial_key(c):
+    if c["kind"] == "rekey":
+        return ("rekey", c["v"], c["w"], c["path"])
     if c["kind"] == "pickle":
         return ("pickle", c["v"]) if c["v"][0] not in ("i", "b", "f", "s", "y", "n") else None
     if c["kind"] == "memo":
@@ -1106,6 +1440,8 @@ def nontrivial_key(c):
 
 
 def distribution(c):
+    if c["kind"] == "rekey":
+        return {"kind": "rekey", "mutated": _get(c["v"], c["path"])[0], "nested": bool(c["path"])}
     if c["kind"] == "pickle":
         return {"kind": "pickle", "top_v": c["v"][0]}
     if c["kind"] == "memo":
@@ -1142,7 +1478,7 @@ def _cls(a):
 def finding_id(c, impl_obs, kind):
     if c["kind"] == "pickle":
         return "diskcache-pickle-key-hashseed-frozenset" if _seed_dep(c["v"]) else None
-    vals = [c["v"], c["w"]] if c["kind"] == "pair" else list(c["args"])
+    vals = [c["v"], c["w"]] if c["kind"] in ("pair", "rekey") else list(c["args"])
     if any(_has(v, lambda t: t[0] in ("SR", "DF")) for v in vals):
         return "pandas-key-loses-index-dtype-order"
     if any(_has(v, lambda t: t[0] == "N" and t[1] and any(x[0] == "m" for x in t[4])) for v in vals):
@@ -1167,6 +1503,8 @@ def finding_id(c, impl_obs, kind):
 
 def shrink(c):
     out = []
+    if c["kind"] == "rekey":
+        return out
     if c["kind"] == "pickle":
         return [{"kind": "pickle", "v": _set(c["v"], path, ["i", 0])} for path in _paths(c["v"])[1:]]
     if c["kind"] == "memo":
